@@ -16,7 +16,7 @@ ASSUMPTIONS = ["the baseline is 'observably unchanged' = same objects (identity)
                "simulation_twin/baseline_twin annotations and the system's previous_*/all_changes book-keeping are "
                "not counted as disturbance"]
 UTC0 = datetime(2024, 12, 31, 23, tzinfo=timezone.utc)   # first UTC hour of a Paris series starting 2025-01-01 00:00
-DATES = {"first": 0, "interior": 1, "last": 2, "before": -1, "after": 9}
+DATES = {"first": 0, "interior": 1, "last": 2, "before": -1, "after": 9, "interior_half": 1.5}
 
 
 def changes_of(ctx, env0, spec, objs, script):
